@@ -303,6 +303,14 @@ def gen_regular(repo):
     return m
 
 
+def gen_scalar(repo):
+    """T11: Scalar's rich comparisons"""
+    m = T.Module(f"{repo}/src/nitypes/scalar.py", "Gen.Scalar")
+    m.extra_imports = ["NiVerif.Model.Units"]
+    m.translate_scalar_compare("Scalar", {"_NUMERIC": "isNum", "str": "isStr"})
+    return m
+
+
 MODULES = [
     # (output file, builder, dependencies by output name)
     ("TimeValueTuple", lambda repo, deps: gen_time_value_tuple(repo), []),
@@ -320,6 +328,7 @@ MODULES = [
     ("Geometry", lambda repo, deps: gen_geometry(repo), []),
     ("TimingArgs", lambda repo, deps: gen_timing_args(repo, deps["Irregular"]), ["Irregular"]),
     ("Regular", lambda repo, deps: gen_regular(repo), []),
+    ("Scalar", lambda repo, deps: gen_scalar(repo), []),
 ]
 
 
